@@ -22,9 +22,21 @@ func main() {
 	seed := flag.String("seed", "", "directory of a seeded change (patch.diff): evaluate -p on the tree with the change applied in memory")
 	seedAll := flag.Bool("seedall", false, "evaluate every seeded change under /verif/seeded with its property and print the kill matrix")
 	swallow := flag.String("discover-swallow", "", "rule discovery aid: comma-separated package patterns; lists error calls whose failure can reach a success exit")
+	discC41 := flag.Bool("discover-c41", false, "rule discovery aid, NOT a check: run the bounded scenario interpreter over the C41 window tables and print what deviates")
 	doc := flag.Bool("doc", false, "print the per-property documentation (markdown) from the rule registry")
 	flag.Parse()
 	rules.Finalize()
+	if *discC41 {
+		prog, err := core.Load(core.LoadOpts{Patterns: []string{"./storage/flux"}})
+		if err != nil {
+			fmt.Println("load:", err)
+			os.Exit(1)
+		}
+		for _, l := range rules.DiscoverC41(prog) {
+			fmt.Println(l)
+		}
+		return
+	}
 	if *swallow != "" {
 		os.Exit(discoverSwallow(*swallow))
 	}
